@@ -121,8 +121,26 @@ pub fn replay(v: &Value) -> Result<String, String> {
                 };
                 let any_report = v.get("refusal_any").and_then(|x| x.as_bool()).unwrap_or(false);
                 let t: Vec<crate::progs::Ev> = if any_report { t.into_iter().map(|e| if e == crate::progs::Ev::Invalid { crate::progs::Ev::PrintRefused } else { e }).collect() } else { t };
-                let obs: Vec<String> = t.iter().map(|e| format!("{:?}", e)).collect();
-                let exp: Vec<String> = exp.iter().map(|e| e.as_str().unwrap_or("").to_string()).collect();
+                // flag dumps whose undefined bits are not compared: both sides are shown with those bits cleared
+                let masks: Vec<u16> = v.get("flag_masks").and_then(|x| x.as_array()).map(|a| a.iter().map(|m| m.as_u64().unwrap_or(0) as u16).collect()).unwrap_or_default();
+                let mask_ev = |i: usize, e: &crate::progs::Ev| -> String {
+                    match (e, masks.get(i)) {
+                        (crate::progs::Ev::Flags(f), Some(m)) if *m != 0 => format!("{:?}", crate::progs::Ev::Flags(f & !m)),
+                        _ => format!("{:?}", e),
+                    }
+                };
+                let obs: Vec<String> = t.iter().enumerate().map(|(i, e)| mask_ev(i, e)).collect();
+                let exp: Vec<String> = exp
+                    .iter()
+                    .enumerate()
+                    .map(|(i, e)| {
+                        let s = e.as_str().unwrap_or("").to_string();
+                        match (s.strip_prefix("Flags(").and_then(|r| r.strip_suffix(')')).and_then(|n| n.parse::<u16>().ok()), masks.get(i)) {
+                            (Some(f), Some(m)) if *m != 0 => format!("{:?}", crate::progs::Ev::Flags(f & !m)),
+                            _ => s,
+                        }
+                    })
+                    .collect();
                 if obs != exp {
                     ok = false;
                     for i in 0..obs.len().max(exp.len()) {
